@@ -15,10 +15,15 @@ def gen(tier, seed):
     return _GEN[k]
 
 
-def rust_subjects(g, rep=None):
-    """(name, module) for every corpus description whose Rust code was generated."""
+def rust_subjects(g, rep=None, borderline=False):
+    """(name, module) for every corpus description whose Rust code was generated.  Descriptions of the `borderline`
+    group (ill-formed by the reference, subjects only if the analyzer accepts them) have no reference semantics: they
+    are included only for the checks that do not compare with the reference (C01, C10)."""
     out = []
+    groups = {e["name"]: e["group"] for e in g.index}
     for name in g.names():
+        if groups.get(name) == "borderline" and not borderline:
+            continue
         st = g.status.get(name, {})
         if st.get("rust") != "ok":
             continue
